@@ -153,3 +153,22 @@ package commands
 //@ func FullError
 //@   assumed
 //@   noeffect
+
+// C04: `git lfs checkout` / `pull` write a working-tree file only if it does
+// not exist, is empty, or its whole content is pointer text for the very object
+// that is about to be checked out.
+//@ func (*singleCheckout).Run
+//@   props C04
+//@   requires @inv p != nil && p.Pointer != nil && c.pathConverter != nil
+//@   at call (*commands.singleCheckout).RunToPath:1 assert !fexists(arg2__) || len(fdata(arg2__)) == 0 || (len(fdata(arg2__)) < 1024 && decodes_ok(str_trim(fdata(arg2__))) && ptr_oid(str_trim(fdata(arg2__))) == p.Oid)
+
+//@ func github.com/git-lfs/git-lfs/v3/git.DiffIndexWithPaths
+//@   assumed
+//@   props C04
+//@   modifies fresh
+//@ iface (github.com/git-lfs/git-lfs/v3/lfs.PathConverter).Convert
+//@   noeffect
+//@ func (*singleCheckout).RunToPath
+//@   assumed
+//@   props C04
+//@   modifies all
